@@ -10,11 +10,11 @@ raised inside the engine's own loop body, at a frame that depends on the case:
                     MD program sits in its own session and does not get the signal).  Not in the Lean model: judged by
                     the predicates only.
 
-Compared with `extRunF` (driver op `extf`) for BOTH guards (`asis` = code as found, `guarded` = proposed repair), which
-must be consistent over all cases, and judged by the property itself:
+Compared with `extRunF` (driver op `extf`) for BOTH guards (`guarded` = the code as it is, `asis` = record of the code as
+found), consistently over all cases per engine, and judged by the property itself:
 
   C12:<eng>:program-left-running-after-exception   the external program is still running after propagate ended by the
-                                                   exception                      (OPEN finding → PENDING_FINDINGS)
+                                                   exception   (the finding repaired in /repo; corpus/C12/*-body-exception-*)
   C12:<eng>:exception-swallowed                    the body's exception did not leave propagate although the frame was
                                                    reached: a (silently truncated) path came back
   C12:<eng>:path-differs-before-exception          the frames recorded before the exception are not the first `at`
@@ -25,10 +25,12 @@ from __future__ import annotations
 import contextlib
 import os
 
-# OPEN findings of the unchanged /repo (reported, not yet in known_findings.json): a hit is written to the evidence
-# (`pending_findings`) instead of being printed as a VIOLATION.  EMPTY THIS LIST when the repair lands in /repo —
-# from then on the signature is a violation again.
-PENDING_FINDINGS = ["C12:lammps:program-left-running-after-exception", "C12:cp2k:program-left-running-after-exception"]
+# No switch: the tie compares the real engines with BOTH guards of Model/EngineFault.lean and accepts them only if they side
+# with one guard over all cases.  `guarded` everywhere (the code as it is since the repair in /repo) → silent; `asIs`
+# (the record of the code as found) → the program is left running → ctx.fail with the signature below; whether that prints
+# VIOLATION or KNOWN-FINDING is decided by known_findings.json alone.  PENDING_FINDINGS stays for future open findings of
+# this module (a listed signature is written to the evidence instead of being failed); it is EMPTY.
+PENDING_FINDINGS: list = []
 
 
 # which handler the engines' polling loops have, as far as the cases seen so far tell (per engine: one may be repaired
